@@ -27,10 +27,12 @@ ASSUMPTIONS = [
 SVAL = 'VAL'
 NAKED = ['&', '|', '=', '(', ':', '!', '{', 'a', 'a#b', '#', 'a\\b', 'é', 'a=b', 'a:b', 'a(b', 'x-y', '@[S]@', 'pre@[S]@', '@[', ']@', '@[no/sym]@', 'a@[S]@@[S]@', '\\', 'a#',
          # characters str.isspace() accepts but the tokenizer does not split at: they are ordinary characters of a word, wherever the word stands
-         '\u3000', '\xa0', 'a\u3000', '\x0c']
+         '\u3000', '\xa0', 'a\u3000', '\x0c',
+         # an opener `@[` that is not completed, directly followed (after zero or more name characters) by a real reference
+         '@[@[S]@', 'x@[y_1@[S]@z']
 SOFT = ['&', '|', 'a', 'a b', ' ', '', "it's", '@[S]@', 'x @[S]@ y', '#', 'a#b', '\\', '(', '=', '-x', '<<EOF', ':> t', 'é', '@[', ']@ @[', '&&',
         # quoted, the word of an OPTION that is accepted at the position is a string like any other
-        '-existing-file', '-contents-of', '-python']
+        '-existing-file', '-contents-of', '-python', '@[@[S]@', '<@[_@[S]@>', '@[S@[S]@@[']
 HARD = ['&', '|', 'a', 'a b', ' ', '', 'say "hi"', '@[S]@', 'x @[S]@ y', '#', 'a #b', '\\', ')', ':', '--x', '<<', ':>', 'é', '||', '-existing-path', '-stdout-from', '-stdin', '-ignore-exit-code']
 
 
